@@ -2,10 +2,14 @@ import Model.Common.Proto
 import Model.Common.ECProto
 import Model.C01.Proto
 import Generated.Curves
+import Generated.C01Glv
 open Btc
 
 /-- line protocol of property C01: see harness/c01.py -/
 def handle (args : List String) : String :=
+  match args with
+  | "gen" :: "C01Glv" :: fn :: rest => (Gen.C01Glv.dispatch fn rest).getD "bad-op"
+  | _ =>
   match Btc.EC.ecOp args with
   | some r => r
   | none =>
